@@ -107,6 +107,10 @@ func (e *Engine) VerifyUnit(c *Contract) (r *FnRun) {
 	for _, rq := range c.Requires {
 		fr.assume(ctx.Bool(rq.E))
 	}
+	for _, as := range c.Assumes {
+		fr.assume(ctx.Bool(as.E))
+		r.Trusted["assumption of "+c.Name+": "+as.Src] = true
+	}
 	for _, gv := range c.GhostVars {
 		v := ctx.Eval(gv.Init)
 		fr.st.ghost["gv."+gv.Name] = ctx.term(v)
@@ -580,7 +584,7 @@ func (r *FnRun) modTargets(fr *Frame, ctx *EvalCtx, e Expr, add func(comp string
 			mt := types.Unalias(x.Ty).Underlying().(*types.Map)
 			add(mapDomComp(mt), x.T, false)
 			add(mapValComp(mt), x.T, false)
-			add(mapLenComp, x.T, false)
+			add(mapLenComp(mt), x.T, false)
 		case "fields":
 			for _, n := range ctx.heapCompNames("field " + typeExprString(e.Args[0])) {
 				add(n, Term{}, true)
@@ -749,6 +753,10 @@ func freeVarWritten(fn *ssa.Function, j int) bool {
 // preRegisterTracks records the types of the values logged for tracked callees, from the call sites in the body
 // (so that a specification may mention a call log before the first call has been executed symbolically).
 func (r *FnRun) preRegisterTracks(fr *Frame) {
+	r.preRegisterTracksIn(fr, fr.Fn)
+}
+
+func (r *FnRun) preRegisterTracksIn(fr *Frame, root *ssa.Function) {
 	c := r.Contract
 	if c == nil || len(c.Tracks) == 0 {
 		return
@@ -806,7 +814,10 @@ func (r *FnRun) preRegisterTracks(fr *Frame) {
 			}
 		}
 	}
-	visit(fr.Fn, 0)
+	visit(root, 0)
+	if root != fr.Fn {
+		visit(fr.Fn, 0)
+	}
 }
 
 // storePrecedes: the store is executed before the closure is created on every path and cannot be reached again
